@@ -60,7 +60,7 @@ Decide(x, p, c, fresh, cas) == Goto(x, IF p >= c THEN fresh ELSE cas)
 
 (* ============================================================ send ============================================================ *)
 \* first push attempt (claim)
-S_Push1(p) == /\ pc[p] = "idle" /\ p \in Prod /\ done[p] < NSend
+S_Push1(p) == /\ pc[p] = "idle" /\ p \in Prod /\ done[p] < NSend[p]
               /\ IF CanClaimPush /\ ~IsFull
                  THEN /\ qt' = qt + 1
                       /\ val' = [val EXCEPT ![p] = ValOf(p)] /\ si' = [si EXCEPT ![p] = qt % Cap]
@@ -125,7 +125,7 @@ S_Sig(p) == /\ pc[p] = "s_sig" /\ Signal("q", p, "idle", "r_wait") /\ SendRet(p)
 PopClaim(c) == /\ qh' = qh + 1
                /\ sl' = [sl EXCEPT ![qh % Cap] = IF TwoStep THEN [st |-> "reading", v |-> NoVal] ELSE Free]
                /\ val' = [val EXCEPT ![c] = sl[qh % Cap].v] /\ si' = [si EXCEPT ![c] = qh % Cap]
-R_Pop1(c) == /\ pc[c] = "idle" /\ c \in Cons /\ done[c] < NRecv
+R_Pop1(c) == /\ pc[c] = "idle" /\ c \in Cons /\ done[c] < NRecv[c]
              /\ IF CanClaimPop THEN PopClaim(c) /\ Goto(c, IF TwoStep THEN "r_rel" ELSE "n_ldw")
                 ELSE IsEmpty /\ Goto(c, IF Bug = "late_idler" THEN "r_pop2" ELSE "r_inc") /\ UNCHANGED <<qh, sl, val, si>>
              /\ slow' = [slow EXCEPT ![c] = FALSE]
@@ -175,7 +175,7 @@ N_Sig(c) == /\ pc[c] = "n_sig"
 R_Dec(c) == /\ pc[c] = "r_dec" /\ idler' = idler - 1 /\ slow' = [slow EXCEPT ![c] = FALSE] /\ RecvRet(c) /\ Goto(c, "idle")
             /\ UNCHANGED <<qt, qh, sl, pending, wtrs, spending, cnt, sq, cur, pnd, sent, si>>
 
-AllDone == \A x \in Proc : pc[x] = "idle" /\ done[x] = (IF x \in Prod THEN NSend ELSE NRecv)
+AllDone == \A x \in Proc : pc[x] = "idle" /\ done[x] = (IF x \in Prod THEN NSend[x] ELSE NRecv[x])
 Finished == AllDone /\ UNCHANGED vars
 StepP(p) == S_Push1(p) \/ S_Pub(p) \/ B_Push(p) \/ B_Wait(p) \/ B_IncLate(p) \/ B_DecP(p) \/ B_Timeout(p) \/ B_Dec(p)
             \/ S_LdIdler(p) \/ S_LdP(p) \/ S_Fresh(p) \/ S_Cas(p) \/ S_Sig(p)
